@@ -90,6 +90,8 @@ HEX = re.compile("[a-f0-9]{32}$")
 def scan(d):
     out = {}
     for dp, _, fns in os.walk(d):
+        if dp.rstrip("/").endswith("/0123456789abcdef0123456789abcdef"):     # the store's own directory in the cases that name it so
+            continue
         if HEX.match(os.path.basename(dp)) and "func_code.py" not in fns:   # an entry, not the directory of a function named like one
             op = os.path.join(dp, "output.pkl")
             at = os.stat(op).st_atime if os.path.exists(op) else os.stat(dp).st_atime
@@ -133,7 +135,14 @@ def run_case(case, ctx):
     try:
         with warnings.catch_warnings():
             warnings.simplefilter("ignore")
-            mem = Memory(d, verbose=0, compress=rng.choice([False, False, True]))
+            loc = d
+            if case["i"] % 7 == 3:
+                # the cache lives in a directory named like an entry id (e.g. after a hash of the project), given as a
+                # pathlib.Path (Memory then uses the directory itself, without a 'joblib' sub-directory): it is the store, not an entry
+                import pathlib
+                loc = pathlib.Path(os.path.join(d, "0123456789abcdef0123456789abcdef"))
+                ctx.count("stores_whose_own_directory_is_named_like_an_entry_id")
+            mem = Memory(loc, verbose=0, compress=rng.choice([False, False, True]))
             fs = {"blob": mem.cache(blob), "blob2": mem.cache(blob2), "blob3": mem.cache(blob3), "nested": mem.cache(nested), "hexnamed": mem.cache(hexnamed), "hexexact": mem.cache(hexexact)}
         if case["i"] % 3 == 0:
             # the enclosing function records its code first: its first call on a directory that already holds the
